@@ -113,4 +113,23 @@ def run(desc, V):
             raise sy2z3.Untranslatable(f'coefficient still depends on t after expand_trig: {str(e)[:80]}')
         got[k] = sy2z3.to_value(e, env)
     claims += eq_claims('ring', got, coeffs(r_n), fkey=fkey)
+    # the other substitution route the property names: CALLING the symbolic result (concrete floats: sampling, stated as such)
+    if not V.symbolic or True:
+        import math
+        from .core import concrete_equal
+        fs = sorted(str(s_) for s_ in r_s.free_symbols)
+        tv = 0.7
+        vals = {'t': tv, 'x': 1.25, **{f'y{n}': 0.5 + n for n in range(len(kv_))}}
+        if fs and all(n in vals for n in fs):
+            try:
+                called = r_s(**{n: vals[n] for n in fs})
+            except Exception as e:  # noqa
+                claims.append(Fail('call:raises', f'calling the symbolic result with numbers for {fs} raises {type(e).__name__}: {e} (sympy substitution works)', fkey='trig-ring|call|raises'))
+                return claims
+            num = build(mk_n, math.cos(tv), math.sin(tv), vals['x'], [vals[f'y{n}'] for n in range(len(kv_))])
+            want = coeffs(eval(desc['template'], dict(num)))
+            gotc = coeffs(called)
+            for k in set(gotc) | set(want):
+                if not concrete_equal(gotc.get(k, 0), want.get(k, 0), tol=1e-9):
+                    claims.append(Fail(f'call[{k}]', f'calling the symbolic result gives {gotc.get(k, 0)!r} on blade {k}, numeric evaluation {want.get(k, 0)!r}', fkey='trig-ring|call|value'))
     return claims
